@@ -346,3 +346,122 @@ PROPS["C19"] = dict(
   stages=[corr_stage("C19K1", 3000, 100000, feature=feat_c19, seeds=3),
           thorough_only(corr_stage("C19K1", 1, 1, params={"part": "a2full"}, feature=feat_c19))],
 )
+
+
+# ---------------------------------------------------------------------------------------------------------------
+# C11: lockset translator + race detector
+# ---------------------------------------------------------------------------------------------------------------
+def c11_pre_coq():
+    rc, out = vlib.sh([os.path.join(vlib.VERIF, "bin", "c11_gen")], timeout=600, env=dict(os.environ, VERIF_REPO=vlib.REPO))
+    return "c11_gen: " + out.strip().split("\n")[-1][:200] + ("" if rc == 0 else " [FAILED rc=%d]" % rc)
+
+LIBFILES = ("attempt.go", "bigbuff.go", "buffer.go", "callable.go", "chancaster.go", "channel.go", "chanpubsub.go", "consumer.go",
+            "context.go", "exclusive.go", "notifier.go", "retry.go", "sync.go", "worker.go", "workers.go")
+
+def race_stage(scen, quick, thorough, params=None, timeout=900):
+    """Runs a free-running workload in a -race build and reports every race report that has a library (non-harness) frame."""
+    def run(ctx):
+        exe = ctx.exe(race=True)
+        n = ctx.budget(quick, thorough)
+        t0 = time.time()
+        rc, rec, txt = vlib.run_scenario(exe, scen, ctx.seed, n, params, timeout=timeout,
+                                         extra_env={"GORACE": "halt_on_error=0 exitcode=0 history_size=3"})
+        entry = dict(scenario=scen + " (-race)", seed=ctx.seed, n=n, params=params or {}, rc=rc)
+        blocks = re.findall(r"WARNING: DATA RACE\n(?:.*\n)*?==================", txt)
+        libraces = []
+        for b in blocks:
+            frames = re.findall(r"/([a-z_]+\.go):(\d+)", b)
+            lib = [f for f in frames if f[0] in LIBFILES]
+            if lib:
+                libraces.append((b, lib))
+        seen = set()
+        for b, lib in libraces:
+            funcs = tuple(sorted(set(re.findall(r"go-bigbuff\.(\(\*?[A-Za-z\[\]\.]+\)\.[A-Za-z0-9_]+|[A-Za-z0-9_]+)\(", b))))
+            key = tuple(sorted(set(lib)))[:4]
+            if key in seen:
+                continue
+            seen.add(key)
+            ctx.violate("data race with library frames reported by the Go race detector (%s): %s\n%s" % (
+                scen, " ".join("%s:%s" % f for f in key), b[:1800]),
+                dict(kind="race", scenario=scen, seed=ctx.seed, n=n, params=params or {}, report=b[:6000]))
+        if rc != 0 and not libraces:
+            tail = "\n".join(txt.strip().split("\n")[-30:])
+            ctx.violate("race workload %s ended abnormally (rc=%d):\n%s" % (scen, rc, tail),
+                        dict(kind="scenario-abort", scenario=scen, seed=ctx.seed, output=tail))
+        recs = vlib.read_records(rec) if os.path.exists(rec) else []
+        ncase = 0
+        for line in recs:
+            tok = line.split()
+            if tok[0] == "STAT":
+                ctx.stats[scen + "." + tok[1]] = ctx.stats.get(scen + "." + tok[1], 0) + int(tok[2])
+                if tok[1].endswith("_runs"):
+                    ncase += int(tok[2])
+                    ctx.nontrivial.add(tok[1] + ":" + tok[2])
+                    if len(ctx.samples) < 8:
+                        ctx.samples.append("workload %s x%s (seed %d)" % (tok[1][:-5], tok[2], ctx.seed))
+            elif tok[0] == "MONITOR":
+                ctx.violate("monitor failed in the race workload: " + line[:400],
+                            dict(kind="monitor", scenario=scen, seed=ctx.seed, record=line))
+            elif tok[0] in ("K1", "K2", "F"):
+                ncase += 1
+                ctx.nontrivial.add(" ".join(tok[1:]))
+                if len(ctx.samples) < 4:
+                    ctx.samples.append(line[:400])
+        ctx.evaluations += max(ncase, 1)
+        ctx.traces += max(ncase, 1)
+        entry["race_reports"] = len(blocks); entry["library_race_reports"] = len(libraces)
+        entry["wall_s"] = round(time.time() - t0, 2)
+        ctx.stage_log.append(entry)
+    return run
+
+PROPS["C11"] = dict(
+    pre_coq=[c11_pre_coq],
+    technique="lockset discipline proved sound in Rocq/Coq for all schedules; the implementation's lock/access facts are REGENERATED from the Go source "
+              "on every run (translator harness/cmd/lockx) and re-checked by vm_compute; Go race detector as failing-input search",
+    rule="translator: every field access of every library function/literal with the locks syntactically held (347 facts on the current tree) must satisfy "
+         "the hand-written guard table (vm_compute); dynamic: C11RACE free-running workloads over the public API of every type in a -race build, a report "
+         "counts only with a library frame. non-trivial = a workload round mixing >= 2 operation kinds on one object; distinct by workload record",
+    level_text="Theorem C11_disciplined_no_race (any number of threads, any programs, every schedule): if every access is made while holding its location's "
+               "guard lock in an adequate mode, no state has two threads at conflicting accesses. Obligations C11_impl_disciplined / _lazyinit_confined / "
+               "_gostmts_ok / _sync_callers / _covers_table are recomputed from /repo's source on every run, so removing a lock breaks a proof obligation. "
+               "Race detector workloads provide the concrete failing schedule.",
+    level_note="PARTIAL: the translator's held-lock computation (syntactic, access-path aliasing, entry locksets by intersection over call sites, 'fresh' "
+               "objects) and the exemption list (Buffer.ensure double-checked reads = the property's proviso; Worker.do reads ordered by the go statement; "
+               "Exclusive lock hand-off; unpublished item) are trusted. Atomics/channels synchronise as the Go memory model says.",
+    stages=[race_stage("C11RACE", 250, 2000)],
+)
+
+
+def feat_c18(tok):
+    if tok[0] == "K1":
+        i = tok.index("#"); cfg = tok[3:i]
+        ops, outs = _split(tok[i + 1:], "|")
+        ops = [o for o in _split(ops, ";") if o]; outs = [o for o in _split(outs, ";") if o]
+        fin = outs[-1]; calls, kind = int(fin[0]), int(fin[3]); cancel = int(cfg[1])
+        deep = any(o[0] == "1" and int(o[1]) >= 2 for o in ops)
+        if calls >= 2 and (cancel >= 0 or (kind == 1 and deep) or calls > 32):
+            shape = " ".join(o[0] + (":" + o[1] if o[0] == "1" else "") for o in ops)
+            return "k1:%s:c%d:%s" % (tok[2][0], cancel, shape)
+        return None
+    if tok[0] == "F":
+        body = tok[3:]; args = body[:body.index("|")]
+        if tok[1] == "retry_slot" and int(args[1]) >= 1 and int(args[2]) != 0: return "slot:" + " ".join(args)
+        if tok[1] == "retry_calc" and int(args[1]) >= 1: return "calc:" + " ".join(args)
+    return None
+
+PROPS["C18"] = dict(
+    level_text="Theorems (Properties/C18.v) over the executable closure model (retry.go:62-75 line by line) for EVERY outcome script (plain / nested fatal / "
+               "success), cancellation point (before a check, during a call, during a wait), random oracle and rate: outcome clauses (first success; fatal "
+               "fully unwrapped at any depth with that call's result; no call after cancellation, ctx error with nil result), delay before the k-th retry = "
+               "j*rate with 0 <= j <= 2^min(k,31)-1 (uint32/int64 wraps explicit, vacuous under the cap 31), default rate, wait cut by cancellation; five "
+               "refuted variants. Tie: K1 through the repository's own seams (waitDuration, calcExponentialRetry), the real calcExponentialRetry sampled for "
+               "c in 0..40 with an exact twin generator, real waitDuration under monitors, constants compared at run time.",
+    level_note="Trusted: Coq kernel, extraction, OCaml glue, Go harness; math/rand.Int63n's range contract is the oracle hypothesis; timers and context are the "
+               "Go runtime's; timing monitors use bounds of at least 1 s.",
+    rule="C18K1: seeded scripts of 0-40 plain failures then success / fatal depth 1-4 / nothing, rates <= 0 .. 2^32 ns, nil and custom contexts, cancellation "
+         "never / before the first check / inside a call / inside a wait, closure re-invoked; C18F: constants, real delay function for c in 0..40 (+2^16, 2^31, "
+         "MaxUint32) x 6 rates, exact twin math/rand differential, real waitDuration. non-trivial = K1 case with >= 2 calls and a cancellation point, a "
+         "consumed fatal error nested >= 2 deep, or > 32 calls; or a real delay sample with c >= 1 and non-zero delay; distinct by script shape",
+    stages=[corr_stage("C18K1", 400, 6000, feature=feat_c18, seeds=3),
+            corr_stage("C18F", 12, 60, params=None, feature=feat_c18)],
+)
